@@ -155,8 +155,8 @@ func runC16(tier string, seed int64, si, sn int, rep *monitor.Report, note func(
 	rates := []int{-3, -2, 0, 2, 5}
 	mm := []int{-1, 0, 1, 5}
 	durs := []string{"", "0", "-1m", "1m", "10m", "abc"}
-	effects := []v1.TaintEffect{"", "NoSchedule", "NoExecute", "PreferNoSchedule", "Bogus"}
-	lifecycles := []string{"", "on-demand", "spot", "x"}
+	effects := []v1.TaintEffect{"", "NoSchedule", "NoExecute", "PreferNoSchedule", "Bogus", "noschedule", "NoExecute "}
+	lifecycles := []string{"", "on-demand", "spot", "x", "On-Demand", "SPOT", "spot ", "ondemand"}
 	evals := 0
 	accepted, rejected := 0, 0
 	var gate []GateCase
